@@ -921,6 +921,8 @@ class units_context_manager:
     
     def __init__(self,utype="energy"):
         self.manager = Manager()
+        # units to be restored on exit
+        self.units_backup = []
         if utype in self.manager.allowed_utypes:
             self.utype = utype
         else:
@@ -948,14 +950,15 @@ class energy_units(units_context_manager):
             raise Exception("Unknown energy units")
             
     def __enter__(self):
-        # save current energy units
-        self.units_backup = self.manager.get_current_units("energy")
+        # save current energy units (a stack: the same context object
+        # can be entered again while it is active)
+        self.units_backup.append(self.manager.get_current_units("energy"))
         self.manager.set_current_units(self.utype,self.units)
         self.manager._in_energy_units_context = True
         self.manager._in_eu_count += 1
         
     def __exit__(self,ext_ty,exc_val,tb):
-        self.manager.set_current_units("energy",self.units_backup)
+        self.manager.set_current_units("energy",self.units_backup.pop())
         self.manager._in_eu_count -= 1
         if self.manager._in_eu_count == 0:
             self.manager._in_energy_units_context = False
@@ -985,12 +988,12 @@ class length_units(units_context_manager):
             raise Exception("Unknown length units")
             
     def __enter__(self):
-        # save current energy units
-        self.units_backup = self.manager.get_current_units("length")
+        # save current length units (a stack, see energy_units)
+        self.units_backup.append(self.manager.get_current_units("length"))
         self.manager.set_current_units(self.utype,self.units)
         
     def __exit__(self,ext_ty,exc_val,tb):
-        self.manager.set_current_units("length",self.units_backup)
+        self.manager.set_current_units("length",self.units_backup.pop())
 
 
         
